@@ -13,9 +13,11 @@ package verifrt
 import (
 	"fmt"
 	"reflect"
+	"runtime"
 	"runtime/debug"
 	"sync"
 	"sync/atomic"
+	"time"
 )
 
 var controlled atomic.Bool // true while a controlled execution is in progress
@@ -30,6 +32,9 @@ var (
 	chanRecv = map[uintptr]int64{} // per channel: receives completed
 	inflight int64                 // sum over channels of sent-recv
 	bgPanics []string              // panics recovered from tracked goroutines
+	sendBlocked int64              // goroutines currently inside a channel send (between BeforeSend and AfterSend)
+	knownLeaks  int64              // senders established to be blocked for ever (no receiver will ever come)
+	ggen        uint64             // bumped on every tracked event
 )
 
 func chanKey(ch any) uintptr {
@@ -40,6 +45,12 @@ func chanKey(ch any) uintptr {
 	return v.Pointer()
 }
 
+// Tracking epochs: ResetTracking starts a new epoch; goroutines of an abandoned instance (a panicked or hung
+// one cannot be shut down) must not disturb the counters of the next instance when they finally move.
+var gepoch uint64
+
+type Tok uint64
+
 // Go replaces every `go` statement of instrumented code.
 func Go(f func()) {
 	if controlled.Load() {
@@ -48,16 +59,23 @@ func Go(f func()) {
 	}
 	gmu.Lock()
 	gactive++
+	ggen++
+	ep := gepoch
 	gmu.Unlock()
 	go func() {
 		defer func() {
 			if r := recover(); r != nil {
 				gmu.Lock()
-				bgPanics = append(bgPanics, fmt.Sprintf("%v\n%s", r, debug.Stack()))
+				if ep == gepoch {
+					bgPanics = append(bgPanics, fmt.Sprintf("%v\n%s", r, debug.Stack()))
+				}
 				gmu.Unlock()
 			}
 			gmu.Lock()
-			gactive--
+			if ep == gepoch {
+				gactive--
+				ggen++
+			}
 			gcond.Broadcast()
 			gmu.Unlock()
 		}()
@@ -65,42 +83,49 @@ func Go(f func()) {
 	}()
 }
 
-// Track runs f as a tracked activity of the calling goroutine (harness side:
-// e.g. the goroutine that serves a connection).
-func TrackBegin() {
+// TrackBegin registers a harness-side activity (e.g. the goroutine that serves a connection).
+func TrackBegin() Tok {
 	gmu.Lock()
 	gactive++
+	ggen++
+	t := Tok(gepoch)
 	gmu.Unlock()
+	return t
 }
-func TrackEnd() {
+func TrackEnd(t Tok) {
 	gmu.Lock()
-	gactive--
+	if uint64(t) == gepoch {
+		gactive--
+		ggen++
+	}
 	gcond.Broadcast()
 	gmu.Unlock()
 }
 
 // Park / Unpark let harness-side blocking points (memConn.Read waiting for the
 // next segment) count as "not running".
-func Park() {
+func Park(t Tok) {
 	gmu.Lock()
-	gactive--
+	if uint64(t) == gepoch {
+		gactive--
+		ggen++
+	}
 	gcond.Broadcast()
 	gmu.Unlock()
 }
-func Unpark() {
+func Unpark(t Tok) {
 	gmu.Lock()
-	gactive++
+	if uint64(t) == gepoch {
+		gactive++
+		ggen++
+	}
 	gmu.Unlock()
 }
 
 // Quiesce returns when no tracked goroutine is running and no message is in
 // flight on an instrumented channel.  Free mode only.
 func Quiesce() {
-	gmu.Lock()
-	for gactive != 0 || inflight != 0 {
-		gcond.Wait()
-	}
-	gmu.Unlock()
+	QuiesceTimeout(time.Hour, 30*time.Millisecond)
 }
 
 // BgPanics returns and clears panics recovered from tracked goroutines.
@@ -117,20 +142,89 @@ func ResetTracking() {
 	gmu.Lock()
 	chanSent = map[uintptr]int64{}
 	chanRecv = map[uintptr]int64{}
+	recvWaiting = map[uintptr]int64{}
 	inflight = 0
+	gepoch++
+	gactive = 0
+	sendBlocked = 0
+	knownLeaks = 0
+	ggen++
 	bgPanics = nil
 	gmu.Unlock()
 }
 
+// QuiesceTimeout waits until the instrumented code is idle: no tracked goroutine running and no message in
+// flight.  A goroutine blocked in a send that nobody will ever receive (a leak) does not count as running once it
+// has been stable for `settle`; the number of such senders is returned.  ok=false: not idle within max.
+func QuiesceTimeout(max, settle time.Duration) (ok bool, leaked int) {
+	start := time.Now()
+	var candSince time.Time
+	var candGen uint64
+	for i := 0; ; i++ {
+		gmu.Lock()
+		a, pend, sb, kl, gen := gactive, pendingWakeups(), sendBlocked, knownLeaks, ggen
+		gmu.Unlock()
+		if int64(a) == kl && !pend && sb == kl {
+			return true, int(kl)
+		}
+		if int64(a) == sb && !pend && sb > kl {
+			// everything that is "running" is a sender without a receiver: a leak if it stays that way
+			if candSince.IsZero() || candGen != gen {
+				candSince, candGen = time.Now(), gen
+			} else if time.Since(candSince) >= settle {
+				gmu.Lock()
+				if ggen == gen {
+					knownLeaks = sb
+					gmu.Unlock()
+					return true, int(sb)
+				}
+				gmu.Unlock()
+				candSince = time.Time{}
+			}
+		} else {
+			candSince = time.Time{}
+		}
+		if time.Since(start) > max {
+			return false, 0
+		}
+		switch {
+		case i < 200:
+			runtime.Gosched()
+		case i < 2000:
+			time.Sleep(20 * time.Microsecond)
+		default:
+			time.Sleep(time.Millisecond)
+		}
+	}
+}
+
 // ---- channel operations ----
+//
+// Free-mode bookkeeping: per channel the number of sends started and receives completed, and the number of
+// goroutines parked in a receive/select on it.  A message counts as "in flight" (the system is not idle) only
+// while some goroutine is parked waiting for that channel: a message left in a buffer that nobody waits for is inert.
+
+var recvWaiting = map[uintptr]int64{}
+
+func pendingWakeups() bool {
+	for k, n := range recvWaiting {
+		if n > 0 && chanSent[k] > chanRecv[k] {
+			return true
+		}
+	}
+	return false
+}
 
 func BeforeRecv(ch any) {
 	if controlled.Load() {
 		schedBeforeRecv(ch)
 		return
 	}
+	k := chanKey(ch)
 	gmu.Lock()
 	gactive--
+	recvWaiting[k]++
+	ggen++
 	gcond.Broadcast()
 	gmu.Unlock()
 }
@@ -144,11 +238,11 @@ func AfterRecv(ch any) {
 	gmu.Lock()
 	gactive++
 	chanRecv[k]++
-	inflight--
+	recvWaiting[k]--
+	ggen++
 	gmu.Unlock()
 }
 
-// AfterRecvClosed: a receive that returned because of a close (no message consumed).
 func BeforeSend(ch any) {
 	if controlled.Load() {
 		schedBeforeSend(ch)
@@ -157,7 +251,8 @@ func BeforeSend(ch any) {
 	k := chanKey(ch)
 	gmu.Lock()
 	chanSent[k]++
-	inflight++
+	sendBlocked++
+	ggen++
 	gmu.Unlock()
 }
 
@@ -166,6 +261,10 @@ func AfterSend(ch any) {
 		schedAfterSend(ch)
 		return
 	}
+	gmu.Lock()
+	sendBlocked--
+	ggen++
+	gmu.Unlock()
 }
 
 // BeforeSelect precedes a receive-only select.
@@ -179,12 +278,16 @@ func BeforeSelect(hasDefault bool, chans ...any) {
 	}
 	gmu.Lock()
 	gactive--
+	for _, c := range chans {
+		recvWaiting[chanKey(c)]++
+	}
+	ggen++
 	gcond.Broadcast()
 	gmu.Unlock()
 }
 
-// AfterSelectRecv is the first statement of a receive case of a select.
-func AfterSelectRecv(hasDefault bool, ch any) {
+// AfterSelectRecv is the first statement of a receive case of a select; all lists every channel of the select.
+func AfterSelectRecv(hasDefault bool, ch any, all ...any) {
 	if controlled.Load() {
 		schedAfterRecv(ch)
 		return
@@ -193,9 +296,12 @@ func AfterSelectRecv(hasDefault bool, ch any) {
 	gmu.Lock()
 	if !hasDefault {
 		gactive++
+		for _, c := range all {
+			recvWaiting[chanKey(c)]--
+		}
 	}
 	chanRecv[k]++
-	inflight--
+	ggen++
 	gmu.Unlock()
 }
 
@@ -206,13 +312,12 @@ func AfterSelectDefault() {
 	}
 }
 
-// HarnessSend is used by the harness (virtual tickers) to put a value on an
-// instrumented channel without blocking; it keeps the in-flight accounting.
+// harnessNoteSend is used by the virtual tickers when they put a tick on a channel.
 func harnessNoteSend(ch any) {
 	k := chanKey(ch)
 	gmu.Lock()
 	chanSent[k]++
-	inflight++
+	ggen++
 	gmu.Unlock()
 }
 
